@@ -198,7 +198,9 @@ def _one(rc: RuleCtx, name: str):
         return v
     # ---- loop body as a transfer function ------------------------------------------------
     tnames = [n.id for n in ast.walk(loop.target) if isinstance(n, ast.Name)]
-    carried = [n for n in stored_names(ast.Module(body=loop.body, type_ignores=[])) if n in env and n != L and n not in tnames]
+    from .common import log_only_local
+    carried = [n for n in stored_names(ast.Module(body=loop.body, type_ignores=[])) if n in env and n != L and n not in tnames
+               and not log_only_local(fi, n)]         # (a counter that only feeds a debug message is not state of the pass)
     benv = dict(env)
     for k_, v_ in b.bindings.items():
         benv[k_] = _rn(v_)
